@@ -244,6 +244,8 @@ PLANS["C03"] = {
         T("bulk", "bulk", (36, 240), ["InvC03", "InvBackendsAgree"], backends="bolt,badger", chunk=3, heap="6g"),
         T("bulkbig", "bulkbig", (0, 40), ["InvC03"], backends="bolt,badger", chunk=1, heap="10g", tier="thorough"),
         T("general", "general", (30, 600), ["InvC03"]),
+        # DropCollection among collections whose names are prefixes of each other
+        T("catalog", "catalog", (30, 600), ["InvC03"]),
         EDG("edges", ["InvC03"], ops=["UpdateFunc", "Delete", "DropCollection"], states=(30, 0), reads=(0, 0), writes=(20, 40)),
     ],
 }
@@ -270,6 +272,9 @@ PLANS["C15"] = {
         T("audit3", "audit", (20, 500), ["InvBackendsAgree", "InvAuditAgree"], backends="bolt,badger,badgermem", chunk=8),
         T("bulk3", "bulk", (12, 120), ["InvBackendsAgree", "InvAuditAgree"], backends="bolt,badger", chunk=3, heap="6g"),
         T("sort3", "sort", (20, 500), ["InvBackendsAgree", "InvValue"], backends="bolt,badger,badgermem", chunk=8),
+        # _expiresAt a moment ahead of the wall clock, which then passes it: nothing may expire on any backend
+        T("expiry3", "expiry", (3, 12), ["InvBackendsAgree", "InvAuditAgree", "InvOutcome", "InvValue", "InvAudit"],
+          backends="bolt,badger,badgermem", chunk=3),
     ],
 }
 
@@ -360,6 +365,9 @@ PLANS["C05"] = {
         T("reopen", "reopen", (24, 600), ["InvReopen", "InvAudit", "InvOneTx"], backends="bolt,badger", args=["-txlog"], chunk=6),
         T("abandon", "-", (4, 40), ["InvFault", "InvFaultRest", "InvReopen", "InvNoPanic"], cmd="fault",
           args=["-mode", "abandon", "-targets", "7"], chunk=1),
+        # an insert of about 11 MB (beyond badger's transaction size limit) abandoned at every 23rd store call
+        T("abandon-huge", "-", (2, 8), ["InvFault", "InvFaultRest", "InvReopen", "InvNoPanic"], cmd="fault",
+          args=["-mode", "abandon", "-huge", "-backends", "badger,bolt"], chunk=1, heap="8g", seed_off=41),
         T("onetx", "general", (20, 400), ["InvOneTx"], args=["-txlog"]),
         T("kill", "-", (30, 600), ["InvCrash", "InvCrashAcks"], cmd="crash", args=["-workdir", "{work}"], chunk=10),
         {"kind": "custom", "name": "durability", "fn": durability, "n": (2, 12)},
